@@ -26,9 +26,13 @@ ENGINE = {'name': 'tls',
          'point (handshake header, after the session id, near the end, anywhere) and given to the server and the matcher; every fourth hello is '
          'matched a second time on a connection lineage (shared variable table and replacer, as Connection.Wrap gives it) whose outer stream '
          'carried another hello, and followed by a non-TLS inner stream; 6 (thorough 24) TLS-in-TLS / plaintext-in-TLS sessions run through a '
-         'compiled RouteList [tls sni outer -> terminate (tls.Server over cx, cx.Wrap)] + alpn/sni/bare tls routes with a crypto/tls client over net.Pipe; a case is non-trivial when the hello carries server_name, ALPN or supported_versions; '
+         'compiled RouteList [tls sni outer -> terminate (tls.Server over cx, cx.Wrap)] + alpn/sni/bare tls routes with a crypto/tls client over net.Pipe; sub-matcher configurations include near misses of the values the hello carries (case variants, prefixes/suffixes, trailing dot/space/NUL, empty string, '
+         'Cyrillic look-alikes, wildcards one label off), client ALPN lists include case/space/dot variants of the common ids, a fixed table of 32 '
+         'alpn (configured, offered) pairs, remote_ip/local_ip ranges that contain or narrowly miss the peer; a case is non-trivial when the hello carries server_name, ALPN or supported_versions; '
          'distinct = distinct (bytes, answer) terms',
- 'trusted_base': ['crypto/tls (Go 1.23 standard library) as the reference server and as the client that produces the hellos',
+ 'trusted_base': ['the harness reference semantics of the handshake sub-matchers: alpn = byte-exact membership (RFC 7301, what crypto/tls negotiates on); sni = '
+                  'certmagic.MatchWildcard as documented (case-insensitive, k left-most labels replaced by *); remote_ip/local_ip = prefix containment',
+                  'crypto/tls (Go 1.23 standard library) as the reference server and as the client that produces the hellos',
                   'the harness re-serialiser for mutated hellos (checked to reproduce every captured record byte for byte before mutation)',
                   'caddytls.MatchServerName / certmagic.MatchWildcard are run, not modelled'],
  'modelled': ['modules/l4tls/parsehello.go: parseRawClientHello with every extension case and its return-what-was-parsed failure mode, '
